@@ -303,6 +303,28 @@ def run(model: RepoModel, rep, tier: str):
                           + ": loop headers keep reading their first-round predecessors (definitions from the loop body never arrive)")
     else:
         rep.violation("C06.R4", key, PS, an.node.lineno, "analyze_stmts no longer maintains stmt_counters / is_first_round")
+    # a visit is counted when it is completed, not when it is interrupted: the function also returns from inside the loop (a call
+    # statement interrupts the frame so that the callee is analysed first; the statement stays on the work-list and is visited --
+    # and counted -- again when the frame resumes).  An increment that can be followed by such a return, without the statement having
+    # been popped, counts one visit twice and uses up the budget one round early.
+    key = f"{PS}::analyze_stmts::an interrupted visit is not counted"
+    if comp and heads and incs:
+        pops = {n for n in cfg.g.nodes for c in cfg.calls_at(n) if isinstance(c.func, ast.Attribute) and c.func.attr == "pop" and "worklist" in norm(c.func.value)}
+        bad = None
+        for i_ in incs:
+            if any(cfg.dominates(p_, i_) and p_ in cfg.loop_body_nodes[heads[0]] for p_ in pops):
+                continue
+            pth = cfg.path_avoiding(i_, cfg.EXIT, pops | {heads[0]})
+            if pth is not None:
+                bad = (i_, pth)
+        if bad:
+            rep.violation("C06.R4", key, PS, cfg.stmt[bad[0]].lineno,
+                          f"`{norm(cfg.stmt[bad[0]])}` is followed by a return from inside the work-list loop ({' -> '.join(cfg.describe_path(bad[1])[:6])}) "
+                          f"without the statement having been popped: the interrupted visit is counted, the statement is visited again when the "
+                          f"frame resumes and counted again -- a call statement runs out of visits one round early, so definitions that arrive "
+                          f"in the last round (the later `break`s of a loop before it) never reach it")
+        else:
+            rep.holds("C06.R4", key, PS, cfg.stmt[incs[0]].lineno, "every counter increment belongs to a visit whose statement is popped in the same iteration")
     # sibling agreement of the header split
     def split_shape(f: Func) -> Tuple:
         tests = []
@@ -338,9 +360,62 @@ def run(model: RepoModel, rep, tier: str):
 
     _r5_change_propagation(model, rep, p2)
     _r6_worklist_protocol(model, rep, p2)
+    _r8_visit_bound(model, rep)
     from ..generic import check_accumulators
     check_accumulators(model, rep, "C06.R7", ["basics/stmt_def_use_analysis.py"], C06_ADJUDICATED,
                        "used or defined symbols of a statement are missing from its status, so definitions reaching those uses are not linked", 20)
+
+
+def _r8_visit_bound(model: RepoModel, rep):
+    """How often a statement may be visited decides how many definitions can arrive at it (one more `break` before it needs one more
+    visit).  Each phase object takes its bound from the configuration when it is constructed; decided: no other method lowers it."""
+    rep.rule("C06.R8", "the per-statement visit bound a phase runs with is not lowered after construction: an assignment to max_analysis_round "
+                       "outside __init__ evaluates (by constant propagation over the config constants) to at least the constructed value", 2)
+    consts = {k: literal(v) for k, v in model.module("config/config.py").assigns.items() if isinstance(literal(v), int)}
+    for rel in ("core/prelim_semantics.py", "core/global_semantics.py"):
+        for c in model.module(rel).classes.values():
+            init = c.methods.get("__init__")
+            if init is None:
+                continue
+            v0 = None
+            for st in walk_no_nested(init.node):
+                if isinstance(st, ast.Assign) and any(is_self_attr(t, "max_analysis_round") for t in st.targets):
+                    d = dotted(st.value) or ""
+                    v0 = consts.get(d.split(".")[-1]) if d.startswith("config.") else literal(st.value)
+            if v0 is None:
+                continue
+            key = f"{rel}::{c.name}::max_analysis_round is not lowered after construction"
+            bad = unk = None
+            for f in c.methods.values():
+                if f.name == "__init__":
+                    continue
+                env = dict(consts)
+                for st in sorted((x for x in walk_no_nested(f.node) if isinstance(x, ast.Assign)), key=lambda x: x.lineno):
+                    val = None
+                    d = dotted(st.value) or ""
+                    if d.startswith("config."):
+                        val = env.get(d.split(".")[-1])
+                    elif isinstance(literal(st.value), int):
+                        val = literal(st.value)
+                    for t in st.targets:
+                        dt = dotted(t) or ""
+                        if dt.startswith("config.") and val is not None:
+                            env[dt.split(".")[-1]] = min(val, env.get(dt.split(".")[-1], val))     # may or may not run: keep the lower value
+                        if is_self_attr(t, "max_analysis_round"):
+                            if val is None:
+                                unk = (f, st)
+                            elif val < v0:
+                                bad = (f, st, val)
+            if bad:
+                f, st, val = bad
+                rep.violation("C06.R8", key, rel, st.lineno,
+                              f"{f.qualname} assigns `{norm(st)}`, which evaluates to {val}; the object was constructed with {v0}: every statement of "
+                              f"this phase is visited at most {val} instead of {v0} times, so a statement that several paths reach one after the "
+                              f"other (the statement after a loop with several `break`s) stops being re-analysed before the last definitions arrive")
+            elif unk:
+                rep.unknown("C06.R8", key, rel, unk[1].lineno, f"`{norm(unk[1])}` in {unk[0].qualname} is not a constant the propagation can evaluate")
+            else:
+                rep.holds("C06.R8", key, rel, init.node.lineno, f"constructed with {v0}; no other method assigns a lower value")
 
 
 def _r5_change_propagation(model: RepoModel, rep, p2):
